@@ -233,7 +233,7 @@ func TestC07Adapter(t *testing.T) {
 }
 
 func TestC07Tunnel(t *testing.T) {
-	vlib.SetRule("C07", "TestC07Tunnel", "end to end on a real 2-node cluster: client = client.Dialer or a forward.Forwarder in front of a plain TCP connection, entering at the upstream's node or the other one, upstream = Go SDK raw TCP accept or the agent TCP proxy in front of a local TCP server; the upstream echoes; drawn write sizes (0 B-1 MiB, total <= 2 MiB, crossing the yamux window) and read-buffer cycles, writer and reader running concurrently; then either end closes; a tenth of the cases are one-way instead: 200 KiB into an upstream that reads 4 KiB every 160 ms while the dialer closes right after its last write; oracle: the echoed stream equals the written stream byte for byte; after the client closes the upstream's connection ends and the server holds no open stream; after the upstream closes - or, behind the agent, resets - its connection the client reads end of stream; non-trivial = cross-node path or a read buffer smaller than a write, with >= 64 KiB transferred")
+	vlib.SetRule("C07", "TestC07Tunnel", "end to end on a real 2-node cluster: client = client.Dialer or a forward.Forwarder in front of a plain TCP connection, entering at the upstream's node or the other one, upstream = Go SDK raw TCP accept or the agent TCP proxy in front of a local TCP server; the upstream echoes; drawn write sizes (0 B-1 MiB, total <= 2 MiB, crossing the yamux window; an eighth of the cases interleave 17-40 empty writes with small ones) and read-buffer cycles, writer and reader running concurrently; then either end closes; a tenth of the cases are one-way instead: 200 KiB into an upstream that reads 4 KiB every 160 ms while the dialer closes right after its last write; oracle: the echoed stream equals the written stream byte for byte; after the client closes the upstream's connection ends and the server holds no open stream; after the upstream closes - or, behind the agent, resets - its connection the client reads end of stream; non-trivial = cross-node path or a read buffer smaller than a write, with >= 64 KiB transferred")
 	vlib.Run(t, "C07", func(c *vlib.Case) {
 		// a tunnel may outlive the proxy's request timeout: with a short timeout some
 		// cases pause for longer than it in the middle of the stream
@@ -259,6 +259,17 @@ func TestC07Tunnel(t *testing.T) {
 			}
 			ws = append(ws, s)
 			total += s
+		}
+		// some connections carry many empty writes over their lifetime (an application
+		// flushing with nothing to send): each is an empty message in the tunnel
+		if c.Chance("manyEmptyWrites", 1, 8) {
+			ws, total = nil, 0
+			for i, n := 0, c.Int("emptyWrites", 17, 40); i < n; i++ {
+				d := []int{1, 2, 125, 126, 127}[c.Pick("between", 5)]
+				ws = append(ws, 0, d)
+				total += d
+			}
+			c.Class("many-empty-writes")
 		}
 		var bufs []int
 		minBuf := 1 << 30
